@@ -58,6 +58,15 @@ fn main() {
     if id == "C18" && args[2] == "--digest" {
         std::process::exit(c18::digest_main(&args));
     }
+    if args[2] == "--big" {
+        let oracle: big::BigOracle = match id.as_str() {
+            "C03" => inv::c03_pipeline,
+            "C04" => inv::c04_spans,
+            "C05" => |i, e, _c, st| inv::c05_coverage(i, e, st),
+            _ => usage(),
+        };
+        std::process::exit(big::child_main(oracle, &args));
+    }
     match args[2].as_str() {
         "quick" => std::process::exit(run_fn(Tier::Quick)),
         "thorough" => std::process::exit(run_fn(Tier::Thorough)),
